@@ -178,8 +178,14 @@ Section Proofs.
   Lemma step_inv s sp o : Inv s sp ->
     let '(s', ok) := step decl false s o in Inv s' (spec_step decl sp o ok).
   Proof.
-    intros (Hv & Hs & Hu & Hl). destruct o as [vs|l|l]; simpl.
+    intros (Hv & Hs & Hu & Hl). destruct o as [vs|rows vs|l|l]; simpl.
     - destruct (Nat.eqb_spec (length vs) (nP decl)) as [E|E]; [|repeat split; auto].
+      repeat split; simpl; auto using str_sbs, str_uniq.
+      intros p Hp. unfold declared in Hp. destruct (index decl p) as [i|] eqn:Ei; [|discriminate].
+      unfold lk. rewrite <- lastv_look by auto using str_sbs, str_uniq.
+      rewrite (combine_str_lastv vs p i ND E Ei). reflexivity.
+    - destruct (Nat.eqb rows (nP decl)); simpl; [|repeat split; auto].
+      destruct (Nat.eqb_spec (length vs) (nP decl)) as [E|E]; [|repeat split; auto].
       repeat split; simpl; auto using str_sbs, str_uniq.
       intros p Hp. unfold declared in Hp. destruct (index decl p) as [i|] eqn:Ei; [|discriminate].
       unfold lk. rewrite <- lastv_look by auto using str_sbs, str_uniq.
@@ -217,8 +223,9 @@ Section Proofs.
 
   (* a rejected assignment changes nothing at all *)
   Lemma reject_unchanged s o s' : step decl false s o = (s', false) -> s' = s.
-  Proof. destruct o as [vs|l|l]; simpl.
+  Proof. destruct o as [vs|rows vs|l|l]; simpl.
     - destruct (Nat.eqb _ _); intros H; inversion H; reflexivity.
+    - destruct (Nat.eqb rows _ && Nat.eqb (length vs) _); intros H; inversion H; reflexivity.
     - destruct (Nat.eqb _ _); [destruct (write decl [] l) as [d [|]]|]; intros H; inversion H; reflexivity.
     - destruct (Nat.ltb _ _); [intros H; inversion H; reflexivity|].
       destruct (write decl (pdic s) l) as [d [|]]; intros H; inversion H. destruct s; reflexivity. Qed.
@@ -237,6 +244,10 @@ Section Proofs.
     - destruct (Nat.ltb _ _); [reflexivity|]. specialize (W (pdic s)). destruct (write decl (pdic s) l) as [d [|]]; [discriminate|reflexivity]. Qed.
   Lemma wrong_length_rejected s vs : length vs <> length decl -> snd (step decl false s (SetList vs)) = false.
   Proof. intros H; simpl. destruct (Nat.eqb_spec (length vs) (nP decl)); [contradiction|reflexivity]. Qed.
+  Lemma wrong_shape_rejected s rows vs : rows <> length decl \/ length vs <> length decl ->
+    snd (step decl false s (SetArr rows vs)) = false.
+  Proof. intros H; simpl. destruct (Nat.eqb_spec rows (nP decl)); destruct (Nat.eqb_spec (length vs) (nP decl)); simpl;
+    try reflexivity. destruct H; contradiction. Qed.
 End Proofs.
 
 (* ---------- the aliased dict branch (the pinned code) leaks a rejected assignment ---------- *)
